@@ -19,9 +19,10 @@ Theorems over `MCHap/Model/Vcf.lean`.
   the GT columns, and raises exactly when a GT holds an unlisted allele.
 * `gArray_length`, `callGArray_length`: a G-length field has `C(n_alleles + ploidy − 1, ploidy)` entries = the
   number of genotypes in the VCF order (C11), for every allele count (masked reference included);
-  `assembleGP_length_partial`, `assembleGP_no_IndexError_partial`, `relabel_nAllele_partial`: the three producers
-  that size an array from something other than the record's allele count are right exactly on the stated
-  hypothesis; machine-checked counter-examples follow each (candidate defects F3, F4).
+  `assembleGP_length`, `assembleGP_no_IndexError`, `relabel_nAllele`: since the repairs of F3 / F4 the programs
+  pass the record's allele count to `_genotype_posterior_as_array` / `relabel`, and these hold for every record;
+  `gpArraySize_default_partial`, `relabel_default_nAllele_partial` + counter-examples state what the defaults
+  (`len(labels)`, `labels.max() + 1`, the former program behaviour) give.
 * `formatGT_sorted_dots_last`, `genotypeAsAlleles_perm`: the GT the code prints.
 * `round3_error`, `sum_round_tolerance`: the derived tolerance for sums of 3-decimal values.
 -/
@@ -309,23 +310,28 @@ theorem gArray_length (nAlt p : ℕ) (hp : 1 ≤ p) :
 /-- `as_array(len(haplotypes))` and `genotype_likelihoods` (call, call-exact, call-pedigree, assemble GL) -/
 theorem callGArray_length (nAlt p : ℕ) : expectedCard nAlt p .G = some (callGArraySize nAlt p) := rfl
 
-/-- assemble's GP array has the right length when the reference haplotype was called … -/
-theorem assembleGP_length_partial (nAlt p : ℕ) :
-    expectedCard nAlt p .G = some (assembleGPSize nAlt true p) := rfl
+/-- assemble's GP array (`n_alleles=len(haplotypes)`) has the record's G length whether or not the reference
+    haplotype was called -/
+theorem assembleGP_length (nAlt p : ℕ) (refCalled : Bool) :
+    expectedCard nAlt p .G = some (assembleGPSize nAlt refCalled p) := rfl
 
-/-- … and not otherwise (1 ALT, diploid, REFMASKED: 1 entry instead of 3) — candidate defect F3 -/
-example : expectedCard 1 2 .G = some 3 ∧ assembleGPSize 1 false 2 = 1 := by decide
+/-- the default sizing `n_alleles = len(labels)` is right only when the reference is among the labels … -/
+theorem gpArraySize_default_partial (nAlt p : ℕ) :
+    expectedCard nAlt p .G = some (gpArraySize (assembleNLabels nAlt true) none p) := rfl
 
-/-- with the reference called, every sorted genotype over the listed alleles lands inside the array -/
-theorem assembleGP_no_IndexError_partial (nAlt p : ℕ) (hp : 1 ≤ p) (entries : List (List ℕ × ℚ))
-    (hent : ∀ e ∈ entries, e.1.length = p ∧ ∀ a ∈ e.1, a ≤ nAlt) :
-    ∃ arr, assembleGPArray nAlt true p entries = some arr ∧ arr.length = cwr (nAlt + 1) p := by
-  unfold assembleGPArray
-  have key : ∀ (es : List (List ℕ × ℚ)) (arr : List ℚ), arr.length = cwr (nAlt + 1) p →
-      (∀ e ∈ es, e.1.length = p ∧ ∀ a ∈ e.1, a ≤ nAlt) →
+/-- … and too short otherwise (1 ALT, diploid, REFMASKED: 1 entry instead of 3).  This was the program's
+    sizing before the repair of F3. -/
+example : expectedCard 1 2 .G = some 3 ∧ gpArraySize (assembleNLabels 1 false) none 2 = 1 := by decide
+
+theorem gpArrayFill_ok (n p : ℕ) (hp : 1 ≤ p) (entries : List (List ℕ × ℚ))
+    (hent : ∀ e ∈ entries, e.1.length = p ∧ ∀ a ∈ e.1, a < n) :
+    ∃ arr, gpArrayFill (cwr n p) entries = some arr ∧ arr.length = cwr n p := by
+  unfold gpArrayFill
+  have key : ∀ (es : List (List ℕ × ℚ)) (arr : List ℚ), arr.length = cwr n p →
+      (∀ e ∈ es, e.1.length = p ∧ ∀ a ∈ e.1, a < n) →
       ∃ arr', es.foldlM (fun (arr : List ℚ) e =>
           if genotypeIndex e.1 < arr.length then some (arr.set (genotypeIndex e.1) e.2) else none) arr
-        = some arr' ∧ arr'.length = cwr (nAlt + 1) p := by
+        = some arr' ∧ arr'.length = cwr n p := by
     intro es
     induction es with
     | nil => intro arr hl _; exact ⟨arr, by simp, hl⟩
@@ -334,24 +340,41 @@ theorem assembleGP_no_IndexError_partial (nAlt p : ℕ) (hp : 1 ≤ p) (entries 
       obtain ⟨hlen, hal⟩ := he e (by simp)
       have hidx : genotypeIndex e.1 < arr.length := by
         rw [hl, ← hlen]
-        exact C11.index_lt (nAlt + 1) e.1 (fun x hx => Nat.lt_succ_of_le (hal x hx)) (by omega)
+        exact C11.index_lt n e.1 hal (by omega)
       obtain ⟨arr', h1, h2⟩ := ih (arr.set (genotypeIndex e.1) e.2) (by simpa using hl)
         (fun e' he' => he e' (by simp [he']))
       exact ⟨arr', by simp [List.foldlM_cons, hidx, h1], h2⟩
-  exact key entries _ (by simp [assembleGPSize, assembleNLabels]) hent
+  exact key entries _ (by simp) hent
 
-/-- the `IndexError` of `mchap assemble --report GP` on a REFMASKED locus (1 ALT, diploid, genotype 1/1) -/
-example : (assembleGPArray 1 false 2 [([1, 1], 1)]).isNone = true := by decide
+/-- every sorted genotype over the record's alleles lands inside assemble's GP array, reference called or not:
+    `mchap assemble --report GP` cannot raise the `IndexError` of F3 -/
+theorem assembleGP_no_IndexError (nAlt p : ℕ) (refCalled : Bool) (hp : 1 ≤ p) (entries : List (List ℕ × ℚ))
+    (hent : ∀ e ∈ entries, e.1.length = p ∧ ∀ a ∈ e.1, a ≤ nAlt) :
+    ∃ arr, assembleGPArray nAlt refCalled p entries = some arr ∧ arr.length = cwr (nAlt + 1) p := by
+  unfold assembleGPArray assembleGPSize gpArraySize
+  simp only [Option.getD_some]
+  exact gpArrayFill_ok (nAlt + 1) p hp entries
+    (fun e he => ⟨(hent e he).1, fun a ha => Nat.lt_succ_of_le ((hent e he).2 a ha)⟩)
 
-/-- `relabel` restores the record's allele count when the highest-numbered allele stayed in the MCMC … -/
-theorem relabel_nAllele_partial (mask : List Bool) (hlast : mask.getLast? = some false) :
-    relabelNAllele (keptLabels mask) = mask.length := by
+/-- the old behaviour, as a statement about the default sizing: with the reference not among the labels the
+    genotype 1/1 of a 1-ALT diploid record falls outside the array (`IndexError`) -/
+example : (gpArrayFill (gpArraySize (assembleNLabels 1 false) none 2) [([1, 1], 1)]).isNone = true := by decide
+
+/-- call / call-pedigree relabel a trace over the unmasked haplotypes with the record's allele count, whatever
+    the mask -/
+theorem relabel_nAllele (mask : List Bool) : callRelabelNAllele mask = mask.length := rfl
+
+/-- the default `labels.max() + 1` restores the record's allele count only when the highest-numbered allele stayed
+    in the MCMC … -/
+theorem relabel_default_nAllele_partial (mask : List Bool) (hlast : mask.getLast? = some false) :
+    relabelNAllele (keptLabels mask) none = mask.length := by
   have hne : mask ≠ [] := by intro h; simp [h] at hlast
   have hpos : 0 < mask.length := List.length_pos_iff.mpr hne
   have hlastD : mask.getD (mask.length - 1) true = false := by
     rw [List.getLast?_eq_getElem?] at hlast
     simp [List.getD_eq_getElem?_getD, hlast]
   unfold relabelNAllele keptLabels
+  simp only [Option.getD_none]
   have hmem : mask.length - 1 ∈ (List.range mask.length).filter (fun i => !(mask.getD i true)) := by
     refine List.mem_filter.mpr ⟨List.mem_range.mpr (by omega), ?_⟩
     rw [hlastD]; rfl
@@ -363,8 +386,10 @@ theorem relabel_nAllele_partial (mask : List Bool) (hlast : mask.getLast? = some
   have h2 := foldl_max_le _ 0 (mask.length - 1) (by omega) hub
   omega
 
-/-- … and is too small otherwise (3 alleles, the last with zero prior: 2) — candidate defect F4 -/
-example : relabelNAllele (keptLabels [false, false, true]) = 2 := by decide
+/-- … and is too small otherwise (3 alleles, the last with zero prior: 2).  This was the programs' value before
+    the repair of F4. -/
+example : relabelNAllele (keptLabels [false, false, true]) none = 2 ∧
+    callRelabelNAllele [false, false, true] = 3 := by decide
 
 /-! ## the GT the code prints -/
 
